@@ -104,8 +104,9 @@ Definition pre (p : Z) (mx : option Z) : Prop := 0 <= p /\ p <= len /\ p <= lim 
 Definition frame (p : Z) (mx : option Z) (p1 : Z) (mx1 : option Z) : Prop :=
   mx1 = mx /\ p <= p1 /\ p1 <= len /\ p1 <= lim mx.
 
+(* _chunk: always a Chunk node spanning [p, final cursor) *)
 Definition postT (p : Z) (mx : option Z) : post tree := fun t p1 mx1 =>
-  frame p mx p1 mx1 /\ leaves t = sig p p1 /\ wf p1 t.
+  frame p mx p1 mx1 /\ leaves t = sig p p1 /\ wf p1 t /\ (exists fs, t = Node tChunk p p1 false [Lst fs]).
 (* with progress: a result that is not None consumed at least one token *)
 Definition postP (p : Z) (mx : option Z) : post tree := fun t p1 mx1 =>
   frame p mx p1 mx1 /\ leaves t = sig p p1 /\ wf p1 t /\ is_hidden t = false /\ (is_none t = false -> p < p1).
@@ -341,6 +342,7 @@ Ltac done_tac :=
          | |- wf _ _ => wf_tac
          | |- wfl _ _ => wfl_tac
          | |- end_ok _ _ => end_tac
+         | |- exists fs, Node _ _ _ _ _ = Node _ _ _ _ _ => eexists; reflexivity
          | |- exp_shape _ => shape_tac
          | |- is_none (Node _ _ _ _ _) = false => reflexivity
          | |- is_hidden _ = false => first [ reflexivity | assumption | hidden_tac ]
@@ -537,4 +539,74 @@ Lemma chunk_spec p mx : G' p -> pre p mx -> wpx (chunk_def ts R) (postT p mx) p 
 Proof. start. unfold chunk_def. wp. Qed.
 
 End Step.
+
+(* ---------------------------------------------------------------- induction over the fuel levels *)
+Definition specs (k : Z) (R : funs) : Prop :=
+  (forall p mx, len - p < k -> pre p mx -> wpx (r_exp R) (postE p mx) p mx) /\
+  (forall p mx, len - p < k -> pre p mx -> wpx (r_chunk R) (postT p mx) p mx) /\
+  (forall p mx, len - p < k -> pre p mx -> wpx (r_semis R) (postL p mx) p mx) /\
+  (forall p mx, len - p < k -> pre p mx -> wpx (r_stats_loop R) (postL p mx) p mx) /\
+  (forall p mx, len - p < k -> pre p mx -> wpx (r_namelist_loop R) (postL p mx) p mx) /\
+  (forall p mx, len - p < k -> pre p mx -> wpx (r_funcname_loop R) (postL p mx) p mx) /\
+  (forall p mx, len - p < k -> pre p mx -> wpx (r_explist_loop R) (postL p mx) p mx) /\
+  (forall p mx, len - p < k -> pre p mx -> wpx (r_varlist_loop R) (postL p mx) p mx) /\
+  (forall p mx, len - p < k -> pre p mx -> wpx (r_fields_loop R) (postL p mx) p mx) /\
+  (forall p mx, len - p < k -> pre p mx -> wpx (r_elseif_loop R) (postL p mx) p mx) /\
+  (forall first p mx, len - p < k -> pre p mx -> wf p first -> is_hidden first = false ->
+     wpx (r_precur R first) (postF first p mx) p mx) /\
+  (forall first p mx, len - p < k -> pre p mx -> wf p first -> end_ok first p -> exp_shape first ->
+     wpx (r_binop R first) (postFE first p mx) p mx).
+
+Lemma specs_bottom : specs 0 bottom.
+Proof.
+  unfold specs. repeat split; intros; exfalso;
+    match goal with H : pre _ _ |- _ => destruct H as (? & ? & _) end; lia.
+Qed.
+
+Lemma specs_step k R : specs k R -> specs (k + 1) (step ts binops unops R).
+Proof.
+  intros (H1 & H2 & H3 & H4 & H5 & H6 & H7 & H8 & H9 & H10 & H11 & H12).
+  unfold specs. cbn [step r_exp r_chunk r_semis r_stats_loop r_namelist_loop r_funcname_loop r_explist_loop
+                     r_varlist_loop r_fields_loop r_elseif_loop r_precur r_binop].
+  repeat split; intros.
+  - eapply exp_spec; try eassumption. unfold G'. lia.
+  - eapply chunk_spec; try eassumption. unfold G'. lia.
+  - eapply semis_spec; try eassumption. unfold G'. lia.
+  - eapply stats_loop_spec; try eassumption. unfold G'. lia.
+  - eapply namelist_loop_spec; try eassumption. unfold G'. lia.
+  - eapply funcname_loop_spec; try eassumption. unfold G'. lia.
+  - eapply explist_loop_spec; try eassumption. unfold G'. lia.
+  - eapply varlist_loop_spec; try eassumption. unfold G'. lia.
+  - eapply fields_loop_spec; try eassumption. unfold G'. lia.
+  - eapply elseif_loop_spec; try eassumption. unfold G'. lia.
+  - eapply precur_spec; try eassumption. unfold G'. lia.
+  - eapply binop_spec; try eassumption. unfold G'. lia.
+Qed.
+
+Lemma specs_level n : specs (Z.of_nat n) (level ts binops unops n).
+Proof.
+  induction n as [|n IH]; [exact specs_bottom|].
+  replace (Z.of_nat (S n)) with (Z.of_nat n + 1) by lia. cbn [level]. apply specs_step, IH.
+Qed.
+
+(* the whole parse: process_tokens *)
+Lemma parse_spec :
+  match parse ts binops unops with
+  | Ok (root, e) => 0 <= e <= len /\ leaves root = sig 0 e /\ wf e root /\ exists fs, root = Node tChunk 0 e false [Lst fs]
+  | Err err => err <> OutOfFuel
+  end.
+Proof.
+  unfold parse, parse_with_fuel.
+  destruct (specs_level (fuel_for ts)) as (_ & H2 & _).
+  specialize (H2 0 None). unfold wpx in H2.
+  destruct (r_chunk (level ts binops unops (fuel_for ts)) (0, None)) as [[t [p1 mx1]]|e].
+  - destruct H2 as ((_ & Ha & Hb & _) & Hl & Hw & Hs).
+    + unfold fuel_for, zlen. lia.
+    + unfold pre. cbn [ParserProofs.lim fence_wf]. pose proof (zlen_nonneg ts). repeat split; lia.
+    + destruct (is_none t); [discriminate|]. cbn [fst]. repeat split; assumption.
+  - apply H2.
+    + unfold fuel_for, zlen. lia.
+    + unfold pre. cbn [ParserProofs.lim fence_wf]. pose proof (zlen_nonneg ts). repeat split; lia.
+Qed.
+
 End S.
